@@ -352,3 +352,88 @@ Definition enc_check_pre (loc : bool) (wls : list items) (pre : items) (tr : lis
 Definition check_in_pre := (bool * list items * items * list (nat * step))%type.
 Definition enc_check_in_pre (c : check_in_pre) : val :=
   match c with (loc, wls, pre, tr) => enc_check_pre loc wls pre tr end.
+
+(* ------------------------------------------------------------------------------------------ *)
+(* verify=True (transfer(..., verify=True) -> HashFileDB.add(verify=True)): after the copy, add()
+   runs check(o, check_hash=True) on every id of the batch:
+     LocalHashFileDB.check trusts a protected (0o444) file; otherwise the file is re-hashed;
+       equal      -> fine                                                          [VerifyOk]
+       absent     -> FileNotFoundError, swallowed by add()                         [VerifyOk]
+       different  -> the file is REMOVED and the id is reported through on_error:
+                     the writer's transfer lists it in TransferResult.failed       [VerifyDrop]
+   (the check BEFORE the copy drops a mismatching file and the copy follows: that is [Remove]).
+   A [vworld] carries the list of (writer, id) reported failed. *)
+Inductive vstep :=
+| Base (s : step)
+| VerifyOk (o : oid)
+| VerifyDrop (o : oid).
+
+Definition vworld := (world * list (nat * oid))%type.
+
+Definition verify_accepts (loc : bool) (b : bytes) (f : file) : bool :=
+  (loc && f_prot f) || list_N_eqb (f_bytes f) b.
+
+Definition vexec (loc : bool) (its : items) (i : nat) (s : vstep) (v : vworld) : option vworld :=
+  match s with
+  | Base s0 => match exec its i s0 (fst v) with Some w' => Some (w', snd v) | None => None end
+  | VerifyOk o =>
+      match oget o its with
+      | None => None
+      | Some b => match oget o (w_objs (fst v)) with
+                  | None => Some v
+                  | Some f => if verify_accepts loc b f then Some v else None
+                  end
+      end
+  | VerifyDrop o =>
+      match oget o its with
+      | None => None
+      | Some b => match oget o (w_objs (fst v)) with
+                  | None => None
+                  | Some f =>
+                      if verify_accepts loc b f then None
+                      else let w := fst v in
+                           Some (mkworld (odel o (w_objs w)) (w_tmps w) (w_rows w) (w_ever w) (w_next w) (w_dirs w),
+                                 (i, o) :: snd v)
+                  end
+      end
+  end.
+
+Fixpoint vrun (loc : bool) (wls : list items) (sched : list nat) (v : vworld) (ps : list (list vstep))
+  : option (vworld * list (list vstep)) :=
+  match sched with
+  | [] => Some (v, ps)
+  | i :: r =>
+      match nth_error ps i with
+      | Some (s :: rest) =>
+          match vexec loc (nth i wls []) i s v with
+          | Some v' => vrun loc wls r v' (upd i rest ps)
+          | None => None
+          end
+      | _ => vrun loc wls r v ps
+      end
+  end.
+
+Definition vdone (ps : list (list vstep)) : bool :=
+  forallb (fun p => match p with [] => true | _ => false end) ps.
+Definition lift (ps : list program) : list (list vstep) := map (map Base) ps.
+
+Definition vproject (n : nat) (tr : list (nat * vstep)) : list (list vstep) :=
+  map (fun i => map snd (filter (fun e => Nat.eqb (fst e) i) tr)) (seq 0 n).
+
+(* simulation check for recorded verify=True traces (no legality: a writer whose verification
+   failed legitimately stops short): every step enabled, nothing left, and the outcome
+   [1; store; ids with a row; left-over temps; set of (writer byte :: id) reported failed] *)
+Definition enc_vsim (loc : bool) (wls : list items) (pre : items) (tr : list (nat * vstep)) : val :=
+  if pre_ok wls pre && forallb (fun e => Nat.ltb (fst e) (length wls)) tr then
+    match vrun loc wls (map fst tr) (pre_world loc pre, []) (vproject (length wls) tr) with
+    | Some ((w, fl), ps') =>
+        if vdone ps' then
+          VL [VN 1; VL (map enc_file (sort_objs (w_objs w))); enc_set (map fst (w_rows w));
+              VN (N.of_nat (length (w_tmps w)));
+              enc_set (map (fun io => N.of_nat (fst io) :: snd io) fl)]
+        else VL [VN 0]
+    | None => VL [VN 0]
+    end
+  else VL [VN 0].
+Definition vsim_in := (bool * list items * items * list (nat * vstep))%type.
+Definition enc_vsim_in (c : vsim_in) : val := match c with (loc, wls, pre, tr) => enc_vsim loc wls pre tr end.
